@@ -308,6 +308,21 @@ func body(c *kernel.Ctx) {
 			w.adversary(ctx, netA, fhA, netB, fhB, sessionB, msgIDs)
 		})
 	}
+	if verifrt.Intn("cfg", 3) == 2 {
+		// connection churn: links between members (any pair) lose their connections during the run and are
+		// re-dialled by the next stream between the two
+		wg.Add(1)
+		verifrt.Go(func() {
+			defer wg.Done()
+			for k := 1 + verifrt.Intn("f", 4); k > 0 && ctx.Err() == nil; k-- {
+				verifrt.Sleep(time.Duration(verifrt.Intn("f", 60)) * time.Millisecond)
+				a, b := verifrt.Intn("f", w.n), verifrt.Intn("f", w.n)
+				if a != b {
+					netA.Disconnect(w.ids[a], w.ids[b])
+				}
+			}
+		})
+	}
 	verifrt.WGWait(&wg)
 	verifrt.Sleep(3 * time.Minute) // quiescence: every in-flight message handled (receive timeout is 1 minute)
 	w.finalCheck()
@@ -551,6 +566,15 @@ func (w *world) adversary(ctx context.Context, netA *simnet.Net, fhA *simnet.Hos
 		case 1: // equivocate: ask for signatures on two payloads (any order, repeated), send whichever to whomever
 			verifrt.Probe("adv:equivocate")
 			a1, s1 := w.collect(netA, w.session, id, p1, shuffled(others))
+			if verifrt.Intn("a", 2) == 1 {
+				// the faulty member drops all its connections and comes back before asking again (whatever a
+				// member remembers about a requester must survive the requester's reconnecting)
+				verifrt.Probe("adv:reconnect-between-requests")
+				for _, to := range others {
+					netA.Disconnect(w.ids[w.faulty], w.ids[to])
+				}
+				verifrt.Sleep(time.Duration(verifrt.Intn("a", 6)) * time.Millisecond)
+			}
 			a2, s2 := w.collect(netA, w.session, id, p2, shuffled(others))
 			if verifrt.Intn("a", 2) == 0 {
 				a1, s1 = w.collect(netA, w.session, id, p1, shuffled(others))
